@@ -93,8 +93,26 @@ impl Minifier
 			linenum_refs: HashSet::new()
 		}
     }
+	/// would the short name, run together with the text that follows it, be read as containing a reserved word
+	fn forms_hidden_token(short: &str,following: &str) -> bool {
+		let cat = [short,following].concat().to_uppercase();
+		for start in 0..short.len() {
+			for (_tok,word) in super::token_maps::DETOK_MAP {
+				let word = word.to_uppercase();
+				if word.len() > short.len()-start && cat[start..].starts_with(&word) {
+					return true;
+				}
+			}
+		}
+		false
+	}
 	/// figure out if the short name needs to be guarded against forming a hidden token
 	fn needs_guard(&self,clean_str: &str,curs: &tree_sitter::TreeCursor) -> bool {
+		// whatever follows the name once the blanks are gone (GOTO, a function in a PRINT list, ...)
+		let following: String = self.line[curs.node().end_byte()..].chars().filter(|c| *c!=' ').take(8).collect();
+		if following.is_ascii() && Self::forms_hidden_token(&clean_str[0..2],&following) {
+			return true;
+		}
 		let short_str = clean_str[0..2].to_lowercase();
 		let cannot_follow = &self.var_guards[short_str];
 		if let Some(mut parent) = curs.node().parent() {
